@@ -689,5 +689,10 @@ func c12Key(k string, cfg c12Cfg, faults []string, constant string) string {
 	if strings.HasPrefix(k, "routing-") {
 		return k
 	}
+	if k == "recovery" && m == "mirrors" && fk["trunc"] && constant == "" {
+		// one recorded finding: a body cut short at one host is not resumed when other hosts are
+		// configured; further transient faults in the same execution do not make it another defect
+		return "recovery mirrors faults=trunc"
+	}
 	return fmt.Sprintf("%s %s faults=%s", k, m, strings.Join(fs, "+"))
 }
